@@ -2,13 +2,20 @@
 Helper lemmas for the method-aware models (S/Methods.lean) and specification (Spec/StructEqM.lean):
 
 1. conservativity: on environments without user methods the M models / M specification coincide
-   with the plain ones;
+   with the plain ones (`canEqualM_eq_canEqual…`, `eqMConserv`, `cmpMConserv`, `hashMConserv`,
+   `specMConserv`, `structEqTopM_eq_structEqM_of_noMethods`);
 2. the method clause of C02: `EqualM.top = structEqTopM`, `EqualM.field = structEqM` on environments
-   where declarations may carry Equal methods.
+   where declarations may carry Equal methods (`equalMOK`; supportedness `SupportedM` /
+   `SupportedCompM`; key lemma `goEqMOK`: `==` is `structEqM` on `canEqualM` types);
+3. `HashM` respects `structEqM` / `structEqTopM` when exactly the declarations with an Equal method
+   have a Hash method (`hashMOK`);
+and the concrete world `MW` (types with methods) used by the non-vacuity examples of Props/C02c, C03c,
+C04c, with the evaluation tactics `goderive_evalM` (specification) and `equalM_eval` (model).
 -/
 import GoderiveModel.S.Methods
 import GoderiveModel.Spec.StructEqM
 import GoderiveModel.Lemmas.Equal
+import GoderiveModel.Lemmas.Hash
 
 set_option linter.unusedSimpArgs false
 set_option linter.unusedVariables false
@@ -467,7 +474,6 @@ structure SpecMConserv (env : Env) (x : Val) : Prop where
   ents : ∀ K V ys, entriesInM env K V x ys = entriesIn env K V x ys
 
 theorem valueAtM_eq_valueAt {env : Env} {K V : Ty} {k v : Val}
-    (hk : ∀ y, structEqM env K k y = structEq env K k y)
     (hv : ∀ y, structEqM env V v y = structEq env V v y) :
     ∀ ys, valueAtM env K V k v ys = valueAt env K V k v ys := by
   intro ys
@@ -475,7 +481,7 @@ theorem valueAtM_eq_valueAt {env : Env} {K V : Ty} {k v : Val}
   | step ys ih =>
   rw [valueAtM.eq_def, valueAt.eq_def]
   match_both
-  rw [hk, hv, ih _ (by simp <;> omega)]
+  rw [hv, ih _ (by simp <;> omega)]
 
 theorem specMConserv {env : Env} (hn : env.noMethods = true) (x : Val) : SpecMConserv env x := by
   induction x using Val.strongInduction with
@@ -515,7 +521,7 @@ theorem specMConserv {env : Env} (hn : env.noMethods = true) (x : Val) : SpecMCo
     match_both
     rename_i k v r
     rw [(ih r (by simp <;> omega)).ents,
-      valueAtM_eq_valueAt ((ih k (by simp <;> omega)).val K) ((ih v (by simp <;> omega)).val V)]
+      valueAtM_eq_valueAt (K := K) (k := k) ((ih v (by simp <;> omega)).val V)]
 
 theorem structEqM_eq_structEq' {env : Env} (hn : env.noMethods = true) (T : Ty) (x y : Val) :
     structEqM env T x y = structEq env T x y := (specMConserv hn x).val T y
@@ -552,14 +558,13 @@ def isPtrTy : Ty → Bool
 
 namespace EqualM
 
-/-- `T` is supported in component position. As `Equal.okComp`, with `canEqualM` for `canEqual`, and two
-more exclusions (both are places where the emitted code does not follow the component semantics
-`structEqM`, see the counterexamples in Props/C02c.lean):
-* a map whose KEY type is not `canEqualM` (contains a type with an Equal method): the emitted code looks
-  keys up with `==`, not with the method;
-* a pointer whose pointee is a NAMED POINTER type: the emitted code calls the function generated for the
-  pointer type, which compares the fields of the struct at the end of the chain even when that struct
-  declares an Equal method. -/
+/-- `T` is supported in component position. As `Equal.okComp`, with `canEqualM` for `canEqual` (map key
+types need no condition: keys are matched with `==` by the emitted code and by `structEqM` alike, and
+typing makes the key type of a non-nil map comparable), and one more exclusion, a place where the
+emitted code does not follow the component semantics `structEqM` (counterexample in Props/C02c.lean):
+a pointer whose pointee is a NAMED POINTER type: the emitted code calls the function generated for the
+pointer type, which compares the fields of the struct at the end of the chain even when that struct
+declares an Equal method. -/
 def okComp (env : Env) : Ty → Bool
   | .basic _ => true
   | .named i => (env.decl? i).isSome
@@ -567,7 +572,7 @@ def okComp (env : Env) : Ty → Bool
       !(R.isNamed && isPtrTy (env.under R)) && okComp env R
   | .slice E => okComp env E
   | .array _ E => okComp env E
-  | .map K V => canEqualM env K && okComp env V
+  | .map _ V => okComp env V
   | .struct fs => canEqualM env (.struct fs)
   | .fnil => true
   | .fcons F r => okComp env F && okComp env r
@@ -820,8 +825,8 @@ theorem goEq_eq_seqEqM {env : Env} (hf : env.flagsOk = true) (hfM : env.flagsOkM
 
 /-! ## Map lookup against `valueAtM` -/
 
-theorem valueAtM_false_of_fresh {env : Env} (hf : env.flagsOk = true) (hfM : env.flagsOkM = true)
-    {K V : Ty} {k v : Val} (hc : canEqualM env K = true) (hk : hasType env K k = true) :
+theorem valueAtM_false_of_fresh {env : Env} (hf : env.flagsOk = true)
+    {K V : Ty} {k v : Val} (hc : canEqual env K = true) (hk : hasType env K k = true) :
     ∀ s, keyFresh k s = true → Spec.valueAtM env K V k v s = false := by
   intro s
   induction s using Val.strongInduction with
@@ -834,13 +839,13 @@ theorem valueAtM_false_of_fresh {env : Env} (hf : env.flagsOk = true) (hfM : env
     | pair k' w =>
       simp only [keyFresh, Bool.and_eq_true, Bool.not_eq_true'] at hfr
       simp only
-      rw [← goEq_eq_structEqM hf hfM k' hc hk, hfr.1, ih tl (by simp <;> omega) hfr.2]
+      rw [← goEq_eq_structEq hf k' hc hk, hfr.1, ih tl (by simp <;> omega) hfr.2]
       rfl
     | _ => rfl
   | _ => rfl
 
-theorem valueAtM_eq_lookup {env : Env} (hf : env.flagsOk = true) (hfM : env.flagsOkM = true)
-    {K V : Ty} {k v : Val} (hc : canEqual env K = true) (hcM : canEqualM env K = true)
+theorem valueAtM_eq_lookup {env : Env} (hf : env.flagsOk = true)
+    {K V : Ty} {k v : Val} (hc : canEqual env K = true)
     (hk : hasType env K k = true) :
     ∀ s, entriesHaveType env K V s = true → keysDistinct s = true →
       Spec.valueAtM env K V k v s =
@@ -854,12 +859,12 @@ theorem valueAtM_eq_lookup {env : Env} (hf : env.flagsOk = true) (hfM : env.flag
   rcases entriesHaveType_inv hs with rfl | ⟨k', w, r, rfl, hk', -, hr⟩
   · rw [Spec.valueAtM.eq_def]; rfl
   · simp only [keysDistinct, Bool.and_eq_true] at hd
-    rw [Spec.valueAtM.eq_1, ← goEq_eq_structEqM hf hfM k' hcM hk]
+    rw [Spec.valueAtM.eq_1, ← goEq_eq_structEq hf k' hc hk]
     simp only [mapLookup]
     cases h : goEq k k' with
     | true =>
       have hfr := keyFresh_of_goEq (V := V) hf hc hk hk' h r hr hd.1
-      rw [valueAtM_false_of_fresh hf hfM hcM hk r hfr]
+      rw [valueAtM_false_of_fresh hf hc hk r hfr]
       simp
     | false =>
       rw [ih r (by simp <;> omega) hr hd.2]
@@ -1070,7 +1075,7 @@ structure EqualMOK (env : Env) (x : Val) : Prop where
   elems : ∀ E ys, okComp env E = true → allHaveType env E x = true →
     allHaveType env E ys = true → x.slen = ys.slen →
     EqualM.elems env E x ys = .ok (seqEqM env E x ys)
-  entries : ∀ K V ys, okComp env V = true → canEqual env K = true → canEqualM env K = true →
+  entries : ∀ K V ys, okComp env V = true → canEqual env K = true →
     entriesHaveType env K V x = true → entriesHaveType env K V ys = true →
     keysDistinct ys = true → EqualM.entries env V x ys = .ok (entriesInM env K V x ys)
 
@@ -1110,22 +1115,22 @@ theorem EqualMOK.step_elems (x : Val) (ih : ∀ z, sizeOf z < sizeOf x → Equal
       (ih r (by simp <;> omega)).elems E s ho hr hs hl']
     cases structEqM env E a b <;> rfl
 
-include hf hfM in
+include hf in
 theorem EqualMOK.step_entries (x : Val) (ih : ∀ z, sizeOf z < sizeOf x → EqualMOK env z) :
-    ∀ K V ys, okComp env V = true → canEqual env K = true → canEqualM env K = true →
+    ∀ K V ys, okComp env V = true → canEqual env K = true →
     entriesHaveType env K V x = true → entriesHaveType env K V ys = true →
     keysDistinct ys = true → EqualM.entries env V x ys = .ok (entriesInM env K V x ys) := by
-  intro K V ys hV hK hKM hx hy hd
+  intro K V ys hV hK hx hy hd
   rcases entriesHaveType_inv hx with rfl | ⟨k, v, r, rfl, hk, hv, hr⟩
   · rw [EqualM.entries, Spec.entriesInM]
-  · rw [EqualM.entries, Spec.entriesInM, valueAtM_eq_lookup hf hfM hK hKM hk ys hy hd]
+  · rw [EqualM.entries, Spec.entriesInM, valueAtM_eq_lookup hf hK hk ys hy hd]
     cases hl : mapLookup k ys with
     | none => rfl
     | some w =>
       have hw := mapLookup_hasType ys hy hl
       simp only
       rw [(ih v (by simp <;> omega)).field V w hV hv hw, Res.bind_ok,
-        (ih r (by simp <;> omega)).entries K V ys hV hK hKM hr hy hd]
+        (ih r (by simp <;> omega)).entries K V ys hV hK hr hy hd]
       cases structEqM env V v w <;> rfl
 
 include hf hfM he in
@@ -1218,7 +1223,7 @@ theorem EqualMOK.step_top (x : Val) (ih : ∀ z, sizeOf z < sizeOf x → EqualMO
   | map K V =>
     have hM := eqM?_none_of_not_struct he (T := T) (by rw [hU]; intro fs h; cases h)
     rw [hU] at hUok
-    simp only [okTop, okComp, Bool.and_eq_true] at hUok
+    simp only [okTop, okComp] at hUok
     rw [top_map hU, structEqTopM_not_ptr (by rw [hU]; intro R h; cases h), structEqM_map hM hU]
     rcases hasType_map_inv hU hx with rfl | ⟨a, xs, rfl, hK, hxs, -⟩ <;>
       rcases hasType_map_inv hU hy with rfl | ⟨b, ys, rfl, -, hys, hd⟩ <;> try rfl
@@ -1226,7 +1231,7 @@ theorem EqualMOK.step_top (x : Val) (ih : ∀ z, sizeOf z < sizeOf x → EqualMO
     by_cases hl : xs.slen = ys.slen
     · have hb : (xs.slen == ys.slen) = true := by rw [hl]; exact beq_self_eq_true _
       rw [if_neg (by simpa using hl),
-        (ih xs (by simp <;> omega)).entries K V ys hUok.2 hK hUok.1 hxs hys hd, hb, Bool.true_and]
+        (ih xs (by simp <;> omega)).entries K V ys hUok hK hxs hys hd, hb, Bool.true_and]
     · have hb : (xs.slen == ys.slen) = false := beq_eq_false_iff_ne.mpr hl
       rw [if_pos (by simpa using hl), hb, Bool.false_and]
   | named i => rw [hU] at hnn; simp [Ty.isNamed] at hnn
@@ -1346,7 +1351,7 @@ theorem equalMOK {env : Env} (hf : env.flagsOk = true) (hfM : env.flagsOkM = tru
   | step x ih =>
   have htop := EqualMOK.step_top hf hfM he x ih
   exact ⟨htop, EqualMOK.step_field hf hfM he x htop ih, EqualMOK.step_fields x ih,
-    EqualMOK.step_elems x ih, EqualMOK.step_entries hf hfM x ih⟩
+    EqualMOK.step_elems x ih, EqualMOK.step_entries hf x ih⟩
 
 
 
@@ -1520,5 +1525,772 @@ theorem hx_hz_structEqM : Spec.structEqM env tHolder hx hz = false := by
   goderive_evalM [env, tHolder, hx, hz, holder, ue, uv, ints, i64]
 
 end MW
+
+
+/-! ## `HashM` respects `structEqM` -/
+
+/-- the declarations with a Hash method are those with an Equal method -/
+def Env.methodsPaired (env : Env) : Bool := env.decls.all fun d => d.hashM.isSome == d.eqM.isSome
+
+theorem Env.methodsPaired_none {env : Env} (hp : env.methodsPaired = true) (T : Ty) :
+    env.hashM? T = none ↔ env.eqM? T = none := by
+  cases T with
+  | named i =>
+    cases hd : env.decl? i with
+    | none => simp [Env.hashM?, Env.eqM?, hd]
+    | some d =>
+      unfold Env.methodsPaired at hp
+      rw [List.all_eq_true] at hp
+      have := hp d (Env.decl_mem hd)
+      simp only [beq_iff_eq] at this
+      simp only [Env.hashM?, Env.eqM?, hd, Option.bind_some]
+      cases h1 : d.hashM <;> cases h2 : d.eqM <;> simp_all
+  | _ => simp [Env.hashM?, Env.eqM?]
+
+/-- `uint64(int32(a))` of the first field, as the corpus' Hash methods compute it -/
+def hashFirst : Val → Res UInt64
+  | .int a => .ok (toU64 (toI32 a))
+  | _ => .panic
+
+theorem userHashVal_struct_scons (a r : Val) : userHashVal (.struct (.scons a r)) = hashFirst a := by
+  cases a <;> rfl
+
+theorem hashFirst_eq_of_goEq {a b : Val} (h : goEq a b = true) : hashFirst a = hashFirst b := by
+  cases a <;> cases b <;> simp_all [goEq, hashFirst]
+
+theorem hasType_int_inv {env : Env} {F : Ty} {n : Int} (h : hasType env F (.int n) = true) :
+    ∃ b, env.under F = .basic b := by
+  rw [hasType.eq_def] at h
+  cases hU : env.under F <;> simp_all
+
+theorem hashFirst_eq_of_structEqM {env : Env} {F : Ty} {a b : Val}
+    (ha : hasType env F a = true) (hb : hasType env F b = true)
+    (he : Spec.structEqM env F a b = true) : hashFirst a = hashFirst b := by
+  cases hM : env.eqM? F with
+  | some u =>
+    rw [structEqM_method hM] at he
+    cases a <;> cases b <;> simp_all [hashFirst, userEqVal, firstField] <;> cases he
+  | none =>
+    by_cases hB : ∃ b', env.under F = .basic b'
+    · obtain ⟨b', hU⟩ := hB
+      rw [structEqM_basic hM hU] at he
+      cases a <;> cases b <;> simp_all [leafEq, hashFirst]
+    · have h1 : ∀ v, hasType env F v = true → hashFirst v = .panic := by
+        intro v hv
+        cases v with
+        | int n => exact absurd (hasType_int_inv hv) hB
+        | _ => rfl
+      rw [h1 a ha, h1 b hb]
+
+/-! ### Shape of `HashM` -/
+
+namespace HashM
+
+theorem field_ptr_method {env : Env} {F R : Ty} {u : UserFn} (hU : env.under F = .ptr R)
+    (hH : env.hashM? R = some u) (x : Val) : field env F x = userHashPtr x := by
+  rw [field.eq_def]; simp only [hU, hH]
+
+theorem field_ptr_plain {env : Env} {F R : Ty} (hU : env.under F = .ptr R)
+    (hH : env.hashM? R = none) (x : Val) : field env F x = top env F x := by
+  rw [field.eq_def]; simp only [hU, hH]
+
+theorem field_not_ptr {env : Env} {F : Ty} (h : ∀ R, env.under F ≠ .ptr R) (x : Val) :
+    field env F x = top env F x := by
+  rw [field.eq_def]
+  cases hU : env.under F with
+  | ptr R => exact absurd hU (h R)
+  | _ => rfl
+
+theorem top_basic {env : Env} {T : Ty} {b : Basic} (hU : env.under T = .basic b) (x : Val) :
+    top env T x = Hash.leaf x := by
+  rw [top.eq_def]; simp only [hU]
+
+theorem top_ptr_struct {env : Env} {T R fs : Ty} (hU : env.under T = .ptr R)
+    (hR : env.under R = .struct fs) (hn : R.isNamed = true) (x : Val) :
+    top env T x =
+      match x with
+      | .nilv => .ok 0
+      | .ptr _ (.struct xs) => if fs = .fnil then .ok 17 else fields env (env.skipMask R) fs xs 17
+      | .ptr _ _ => .panic
+      | _ => .panic := by
+  rw [top.eq_def]; simp only [hU, hR, hn, if_true]
+  cases x with
+  | ptr a v => cases v <;> rfl
+  | _ => rfl
+
+theorem top_ptr_other {env : Env} {T R : Ty} (hU : env.under T = .ptr R)
+    (hR : ∀ fs, env.under R ≠ .struct fs) (x : Val) :
+    top env T x =
+      match x with
+      | .nilv => .ok 0
+      | .ptr _ a => do let c ← field env R a; .ok ((31 * 17) + c)
+      | _ => .panic := by
+  rw [top.eq_def]; simp only [hU]
+  cases hG : env.under R with
+  | struct fs => exact absurd hG (hR fs)
+  | _ => cases x <;> rfl
+
+theorem top_struct_method {env : Env} {T fs : Ty} {u : UserFn} (hU : env.under T = .struct fs)
+    (hH : env.hashM? T = some u) (x : Val) : top env T x = userHashVal x := by
+  rw [top.eq_def]; simp only [hU, hH]
+
+theorem top_struct_plain {env : Env} {T fs : Ty} (hU : env.under T = .struct fs)
+    (hH : env.hashM? T = none) (x : Val) :
+    top env T x =
+      match x with
+      | .struct xs => if fs = .fnil then .ok 17 else fields env (env.skipMask T) fs xs 17
+      | _ => .panic := by
+  rw [top.eq_def]; simp only [hU, hH]
+  cases x <;> rfl
+
+theorem top_slice {env : Env} {T E : Ty} (hU : env.under T = .slice E) (x : Val) :
+    top env T x =
+      match x with
+      | .nilv => .ok 0
+      | .slice _ _ xs => elems env E xs 17
+      | _ => .panic := by
+  rw [top.eq_def]; simp only [hU]
+  cases x <;> rfl
+
+theorem top_array {env : Env} {T E : Ty} {n : Nat} (hU : env.under T = .array n E) (x : Val) :
+    top env T x =
+      match x with
+      | .arr xs => elems env E xs 17
+      | _ => .panic := by
+  rw [top.eq_def]; simp only [hU]
+  cases x <;> rfl
+
+theorem top_map {env : Env} {T K V : Ty} (hU : env.under T = .map K V) (x : Val) :
+    top env T x =
+      match x with
+      | .nilv => .ok 0
+      | .map _ xs => entries env K V (sortEntries xs) 17
+      | _ => .panic := by
+  rw [top.eq_def]; simp only [hU]
+  cases x <;> rfl
+
+/-- two entry spines whose keys agree position-wise, and whose entries with `==` keys have keys
+that hash alike and values that hash alike, hash alike -/
+theorem entries_congr (env : Env) (K V : Ty) :
+    ∀ (sx sy : Val) (h : UInt64), isEntries sx = true → isEntries sy = true → keysAgree sx sy →
+      (∀ e ∈ sx.toList, ∀ e' ∈ sy.toList, keyEq e e' →
+        field env K (ekey e) = field env K (ekey e') ∧
+        field env V (evalue e) = field env V (evalue e')) →
+      entries env K V sx h = entries env K V sy h := by
+  intro sx
+  induction sx with
+  | snil =>
+    intro sy h _ hy ha _
+    cases sy with
+    | snil => rfl
+    | scons _ _ => simp [keysAgree, toList, keysAgreeL] at ha
+    | _ => simp [isEntries] at hy
+  | scons e r ihe ihr =>
+    intro sy h hx hy ha hQ
+    clear ihe
+    cases e <;> simp only [isEntries, Bool.false_eq_true] at hx
+    rename_i k v
+    cases sy with
+    | scons e' s =>
+      cases e' <;> simp only [isEntries, Bool.false_eq_true] at hy
+      rename_i k' w
+      simp only [keysAgree, toList, keysAgreeL] at ha
+      have hq := hQ (.pair k v) (by simp [toList]) (.pair k' w) (by simp [toList]) ha.1
+      simp only [ekey, evalue] at hq
+      rw [entries, entries]
+      simp only [hq.1, hq.2]
+      cases field env K k' with
+      | panic => rfl
+      | ok ck =>
+        cases field env V w with
+        | panic => rfl
+        | ok cv =>
+          simp only [Res.bind_ok]
+          exact ihr s _ hx hy ha.2 (fun e he e' he' =>
+            hQ e (by simp [toList, he]) e' (by simp [toList, he']))
+    | snil => simp [keysAgree, toList, keysAgreeL] at ha
+    | _ => simp [isEntries] at hy
+  | _ => intro sy h hx; simp [isEntries] at hx
+
+end HashM
+
+/-! ### `entriesInM` / `valueAtM` as quantified statements -/
+
+theorem entriesInM_iff {env : Env} {K V : Ty} {ys : Val} :
+    ∀ xs : Val, xs.isEntrySpine = true →
+      (Spec.entriesInM env K V xs ys = true ↔
+        ∀ k v, .pair k v ∈ xs.toList → Spec.valueAtM env K V k v ys = true) := by
+  intro xs
+  induction xs with
+  | snil => intro _; simp [Spec.entriesInM, Val.toList]
+  | scons hd tl _ ih =>
+    intro hs
+    cases hd with
+    | pair k v =>
+      have hs' : tl.isEntrySpine = true := by simpa [Val.isEntrySpine] using hs
+      rw [Spec.entriesInM, Bool.and_eq_true, ih hs']
+      simp only [Val.toList, List.mem_cons]
+      constructor
+      · rintro ⟨h1, h2⟩ k' v' (h | h)
+        · cases h; exact h1
+        · exact h2 k' v' h
+      · intro h
+        exact ⟨h k v (Or.inl rfl), fun k' v' h' => h k' v' (Or.inr h')⟩
+    | _ => simp [Val.isEntrySpine] at hs
+  | _ => intro hs; simp [Val.isEntrySpine] at hs
+
+theorem valueAtM_iff {env : Env} {K V : Ty} {k v : Val} :
+    ∀ ys : Val, ys.isEntrySpine = true →
+      (Spec.valueAtM env K V k v ys = true ↔
+        ∃ k' w, .pair k' w ∈ ys.toList ∧ Spec.structEq env K k k' = true ∧
+          Spec.structEqM env V v w = true) := by
+  intro ys
+  induction ys with
+  | snil => intro _; rw [Spec.valueAtM.eq_def]; simp [Val.toList]
+  | scons hd tl _ ih =>
+    intro hs
+    cases hd with
+    | pair k' w =>
+      have hs' : tl.isEntrySpine = true := by simpa [Val.isEntrySpine] using hs
+      rw [Spec.valueAtM.eq_1, Bool.or_eq_true, Bool.and_eq_true, ih hs']
+      simp only [Val.toList, List.mem_cons]
+      constructor
+      · rintro (⟨h1, h2⟩ | ⟨k2, w2, hm, h1, h2⟩)
+        · exact ⟨k', w, Or.inl rfl, h1, h2⟩
+        · exact ⟨k2, w2, Or.inr hm, h1, h2⟩
+      · rintro ⟨k2, w2, hm | hm, h1, h2⟩
+        · cases hm; exact Or.inl ⟨h1, h2⟩
+        · exact Or.inr ⟨k2, w2, hm, h1, h2⟩
+    | _ => simp [Val.isEntrySpine] at hs
+  | _ => intro hs; simp [Val.isEntrySpine] at hs
+
+
+
+/-- two typed maps with distinct keys and the same number of entries, every key of the first `==` to a
+key of the second: all keys of both are NaN-free (`==` is false on NaN), so both key sets are
+ordered by `cmpKey` -/
+theorem keysIn_of_keysSub {env : Env} (hf : env.flagsOk = true) {K V : Ty} {xs ys : Val}
+    (hc : canEqual env K = true) (hxs : entriesHaveType env K V xs = true)
+    (hys : entriesHaveType env K V ys = true) (dx : keysDistinct xs = true)
+    (hl : xs.slen = ys.slen) (sub : KeysSub xs.toList ys.toList) :
+    KeysIn (fun k => hasType env K k = true ∧ nanFree k = true) xs ∧
+    KeysIn (fun k => hasType env K k = true ∧ nanFree k = true) ys := by
+  have sx := entriesHaveType_isEntrySpine xs hxs
+  have sy := entriesHaveType_isEntrySpine ys hys
+  have nan_of_goEq : ∀ k k', hasType env K k = true → goEq k k' = true → nanFree k = true := by
+    intro k k' hk h
+    rw [goEq_eq_structEq hf k' hc hk] at h
+    exact nanFree_left_of_structEq h
+  refine ⟨⟨Cmp.isEntries_of_entriesHaveType hxs, ?_⟩, ⟨Cmp.isEntries_of_entriesHaveType hys, ?_⟩⟩
+  · intro e he
+    obtain ⟨k, v, rfl⟩ := isEntrySpine_mem xs sx he
+    obtain ⟨e', he', hke⟩ := sub _ he
+    exact ⟨(entriesHaveType_mem xs hxs he).1,
+      nan_of_goEq k (ekey e') (entriesHaveType_mem xs hxs he).1 hke⟩
+  · let R : Val → Val → Prop := fun e e' => keyEq e e' ∧ hasType env K (ekey e') = true
+    have hpw := keysDistinct_pairwise xs sx dx
+    have hinj : xs.toList.Pairwise (fun a a' => ∀ b, R a b → R a' b → False) := by
+      refine List.Pairwise.imp_of_mem ?_ hpw
+      intro e1 e2 he1 he2 hne b ⟨h1, hb⟩ ⟨h2, _⟩
+      obtain ⟨k1, v1, rfl⟩ := isEntrySpine_mem xs sx he1
+      obtain ⟨k2, v2, rfl⟩ := isEntrySpine_mem xs sx he2
+      simp only [keyEq, ekey] at h1 h2
+      obtain ⟨hk1t, _⟩ := entriesHaveType_mem xs hxs he1
+      obtain ⟨hk2t, _⟩ := entriesHaveType_mem xs hxs he2
+      have hne' := hne k1 v1 k2 v2 rfl rfl
+      have : goEq k1 k2 = true :=
+        goEq_trans hf hc hk1t hb h1 (by rw [goEq_symm hf hc hb hk2t]; exact h2)
+      rw [hne'] at this; cases this
+    have hall : ∀ a ∈ xs.toList, ∃ b ∈ ys.toList, R a b := by
+      intro a ha
+      obtain ⟨e', he', hke⟩ := sub a ha
+      obtain ⟨k', w, rfl⟩ := isEntrySpine_mem ys sy he'
+      exact ⟨_, he', hke, (entriesHaveType_mem ys hys he').1⟩
+    have hlen' : ys.toList.length ≤ xs.toList.length := by
+      have := hl; simp only [Val.slen_eq_length] at this; omega
+    have honto := pigeon R xs.toList ys.toList hlen' hinj hall
+    intro e' he'
+    obtain ⟨k', w, rfl⟩ := isEntrySpine_mem ys sy he'
+    obtain ⟨a, ha, hke, hk't⟩ := honto _ he'
+    obtain ⟨k, v, rfl⟩ := isEntrySpine_mem xs sx ha
+    simp only [keyEq, ekey] at hke hk't ⊢
+    have hkt := (entriesHaveType_mem xs hxs ha).1
+    exact ⟨hk't, nan_of_goEq k' k hk't (by rw [goEq_symm hf hc hk't hkt]; exact hke)⟩
+
+/-- Map keys are pointer-free values of a comparable type: `==`-equal keys hash alike, whether or not
+the key type (or a type inside it) declares Equal / Hash methods (the user's Hash reads the first
+field, and `==`-equal structs have `==`-equal first fields). -/
+structure HashKeyOK (env : Env) (x : Val) : Prop where
+  val : ∀ K y, canEqual env K = true → hasType env K x = true → hasType env K y = true →
+    goEq x y = true → HashM.field env K x = HashM.field env K y
+  flds : ∀ skip fs ys h, canEqual env fs = true → fieldsHaveType env fs x = true →
+    fieldsHaveType env fs ys = true → goEq x ys = true →
+    HashM.fields env skip fs x h = HashM.fields env skip fs ys h
+  elems : ∀ E ys h, canEqual env E = true → allHaveType env E x = true →
+    allHaveType env E ys = true → goEq x ys = true →
+    HashM.elems env E x h = HashM.elems env E ys h
+
+theorem hashKeyOK {env : Env} (hf : env.flagsOk = true) (x : Val) : HashKeyOK env x := by
+  induction x using Val.strongInduction with
+  | step x ih =>
+  refine ⟨?_, ?_, ?_⟩
+  · intro K y hc hx hy hg
+    have hcU := canEqual_under hf hc
+    have hnn := Env.under_not_named hf K
+    cases hU : env.under K with
+    | basic b =>
+      have hnp : ∀ R, env.under K ≠ .ptr R := by rw [hU]; intro R h; cases h
+      rw [HashM.field_not_ptr hnp, HashM.field_not_ptr hnp, HashM.top_basic hU, HashM.top_basic hU]
+      rw [hasType_basic hU] at hx hy
+      exact leaf_eq_of_leafEq hx hy (by rw [← goEq_eq_leafEq hx]; exact hg)
+    | array n E =>
+      have hnp : ∀ R, env.under K ≠ .ptr R := by rw [hU]; intro R h; cases h
+      rw [HashM.field_not_ptr hnp, HashM.field_not_ptr hnp, HashM.top_array hU, HashM.top_array hU]
+      obtain ⟨xs, rfl, -, hxs⟩ := hasType_array_inv hU hx
+      obtain ⟨ys, rfl, -, hys⟩ := hasType_array_inv hU hy
+      rw [hU] at hcU
+      simp only [goEq] at hg
+      exact (ih xs (by simp <;> omega)).elems E ys 17 hcU hxs hys hg
+    | struct fs =>
+      have hnp : ∀ R, env.under K ≠ .ptr R := by rw [hU]; intro R h; cases h
+      rw [HashM.field_not_ptr hnp, HashM.field_not_ptr hnp]
+      obtain ⟨xs, rfl, hxs⟩ := hasType_struct_inv hU hx
+      obtain ⟨ys, rfl, hys⟩ := hasType_struct_inv hU hy
+      rw [hU] at hcU
+      simp only [goEq] at hg
+      cases hH : env.hashM? K with
+      | some u =>
+        rw [HashM.top_struct_method hU hH, HashM.top_struct_method hU hH]
+        rcases fieldsHaveType_inv hxs with ⟨rfl, rfl⟩ | ⟨F, rest, a, r, rfl, rfl, -, -⟩
+        · rcases fieldsHaveType_inv hys with ⟨-, rfl⟩ | ⟨_, _, _, _, h', _⟩
+          · rfl
+          · cases h'
+        · rcases fieldsHaveType_inv hys with ⟨h', -⟩ | ⟨_, _, b, s, -, rfl, -, -⟩
+          · cases h'
+          · simp only [goEq, Bool.and_eq_true] at hg
+            rw [userHashVal_struct_scons, userHashVal_struct_scons, hashFirst_eq_of_goEq hg.1]
+      | none =>
+        rw [HashM.top_struct_plain hU hH, HashM.top_struct_plain hU hH]
+        simp only
+        rw [(ih xs (by simp <;> omega)).flds _ fs ys 17 (by simpa [canEqual] using hcU) hxs hys hg]
+    | named i => rw [hU] at hnn; simp [Ty.isNamed] at hnn
+    | fnil => rw [hasType_bad (by rw [hU])] at hx; cases hx
+    | fcons _ _ => rw [hasType_bad (by rw [hU])] at hx; cases hx
+    | _ => rw [hU] at hcU; simp [canEqual] at hcU
+  · intro skip fs ys h hc hx hy hg
+    rcases fieldsHaveType_inv hx with ⟨rfl, rfl⟩ | ⟨F, rest, a, r, rfl, rfl, ha, hr⟩
+    · rcases fieldsHaveType_inv hy with ⟨-, rfl⟩ | ⟨_, _, _, _, h', _⟩
+      · rfl
+      · cases h'
+    · rcases fieldsHaveType_inv hy with ⟨h', -⟩ | ⟨F', rest', b, s, h', rfl, hb, hs⟩
+      · cases h'
+      · cases h'
+        simp only [canEqual, Bool.and_eq_true] at hc
+        simp only [goEq, Bool.and_eq_true] at hg
+        rw [HashM.fields, HashM.fields]
+        rw [(ih a (by simp <;> omega)).val F b hc.1 ha hb hg.1]
+        have IH := fun sk h' => (ih r (by simp <;> omega)).flds sk rest s h' hc.2 hr hs hg.2
+        split
+        · exact IH _ _
+        · cases HashM.field env F b with
+          | panic => rfl
+          | ok c => simp only [Res.bind_ok]; exact IH _ _
+  · intro E ys h hc hx hy hg
+    rcases allHaveType_inv hx with rfl | ⟨a, r, rfl, ha, hr⟩
+    · rcases allHaveType_inv hy with rfl | ⟨_, _, rfl, _⟩
+      · rfl
+      · simp [goEq] at hg
+    · rcases allHaveType_inv hy with rfl | ⟨b, s, rfl, hb, hs⟩
+      · simp [goEq] at hg
+      · simp only [goEq, Bool.and_eq_true] at hg
+        rw [HashM.elems, HashM.elems]
+        rw [(ih a (by simp <;> omega)).val E b hc ha hb hg.1]
+        cases HashM.field env E b with
+        | panic => rfl
+        | ok c =>
+          simp only [Res.bind_ok]
+          exact (ih r (by simp <;> omega)).elems E s _ hc hr hs hg.2
+
+open Spec EqualM in
+/-- the induction invariant of `hashM_respects_structEqM` for a value `x` in its roles: a component,
+the argument of a generated function, the pointee of a top-level pointer, a field spine, an
+element spine -/
+structure HashMOK (env : Env) (x : Val) : Prop where
+  comp : ∀ F y, okComp env F = true → hasType env F x = true → hasType env F y = true →
+    structEqM env F x y = true →
+    HashM.field env F x = HashM.field env F y
+  top : ∀ T y, okTop env T = true → hasType env T x = true → hasType env T y = true →
+    structEqTopM env T x y = true →
+    HashM.top env T x = HashM.top env T y
+  topcomp : ∀ F y, okTop env F = true → hasType env F x = true → hasType env F y = true →
+    structEqTopM env F x y = true →
+    HashM.field env F x = HashM.field env F y
+  fields : ∀ skip fs ys h, okComp env fs = true → fieldsHaveType env fs x = true →
+    fieldsHaveType env fs ys = true →
+    fieldsEqM env fs x ys = true → HashM.fields env skip fs x h = HashM.fields env skip fs ys h
+  elems : ∀ E ys h, okComp env E = true → allHaveType env E x = true →
+    allHaveType env E ys = true →
+    seqEqM env E x ys = true → HashM.elems env E x h = HashM.elems env E ys h
+
+section HashSteps
+open Spec EqualM
+variable {env : Env} (hf : env.flagsOk = true)
+  (he : envOk env = true) (hp : env.methodsPaired = true)
+
+/-- a typed value of a type with an Equal method is a struct with a first field -/
+theorem method_struct_inv {T : Ty} {u : UserFn} (he : envOk env = true)
+    (hM : env.eqM? T = some u) {x : Val}
+    (hx : hasType env T x = true) : ∃ a r, x = .struct (.scons a r) := by
+  obtain ⟨F, rest, hU⟩ := eqM?_some_inv he hM
+  obtain ⟨xs, rfl, hxs⟩ := hasType_struct_inv hU hx
+  rcases fieldsHaveType_inv hxs with ⟨h, -⟩ | ⟨_, _, a, r, -, rfl, -, -⟩
+  · cases h
+  · exact ⟨a, r, rfl⟩
+
+include he in
+/-- at a type with an Equal and a Hash method, method-equal values have the same method hash -/
+theorem userHashVal_eq_of_method {T : Ty} {u : UserFn} (hM : env.eqM? T = some u) {x y : Val}
+    (hx : hasType env T x = true) (hy : hasType env T y = true)
+    (hE : structEqM env T x y = true) : userHashVal x = userHashVal y := by
+  obtain ⟨a, r, rfl⟩ := method_struct_inv he hM hx
+  obtain ⟨b, s, rfl⟩ := method_struct_inv he hM hy
+  rw [structEqM_method hM] at hE
+  simp only [userEqVal, firstField, beq_ok_true] at hE
+  rw [userHashVal_struct_scons, userHashVal_struct_scons, hashFirst_eq_of_goEq hE]
+
+include hf he hp in
+/-- (N) the function generated for a non-pointer type -/
+theorem HashMOK.step_nonptr (x : Val) (ih : ∀ z, sizeOf z < sizeOf x → HashMOK env z) :
+    ∀ T y, okTop env T = true → (∀ R, env.under T ≠ .ptr R) → hasType env T x = true →
+    hasType env T y = true →
+    structEqM env T x y = true → HashM.top env T x = HashM.top env T y := by
+  intro T y hT hnp hx hy hE
+  have hUok := okTop_under he hT
+  have hnn := Env.under_not_named hf T
+  cases hU : env.under T with
+  | basic b =>
+    have hM := eqM?_none_of_not_struct he (T := T) (by rw [hU]; intro fs h; cases h)
+    rw [structEqM_basic hM hU] at hE
+    rw [hasType_basic hU] at hx hy
+    rw [HashM.top_basic hU, HashM.top_basic hU]
+    exact leaf_eq_of_leafEq hx hy hE
+  | ptr R => exact absurd hU (hnp R)
+  | struct fs =>
+    rw [hU] at hUok
+    have hfs : okComp env fs = true := hUok
+    cases hH : env.hashM? T with
+    | some u =>
+      cases hM : env.eqM? T with
+      | none => rw [(Env.methodsPaired_none hp T).2 hM] at hH; cases hH
+      | some u' =>
+        rw [HashM.top_struct_method hU hH, HashM.top_struct_method hU hH]
+        exact userHashVal_eq_of_method he hM hx hy hE
+    | none =>
+      have hM := (Env.methodsPaired_none hp T).1 hH
+      obtain ⟨xs, rfl, hxs⟩ := hasType_struct_inv hU hx
+      obtain ⟨ys, rfl, hys⟩ := hasType_struct_inv hU hy
+      rw [structEqM_struct hM hU] at hE
+      rw [HashM.top_struct_plain hU hH, HashM.top_struct_plain hU hH]
+      simp only
+      rw [(ih xs (by simp <;> omega)).fields _ fs ys 17 hfs hxs hys hE]
+  | slice E =>
+    have hM := eqM?_none_of_not_struct he (T := T) (by rw [hU]; intro fs h; cases h)
+    rw [hU] at hUok
+    have hE' : okComp env E = true := hUok
+    rw [structEqM_slice hM hU] at hE
+    rw [HashM.top_slice hU, HashM.top_slice hU]
+    rcases hasType_slice_inv hU hx with rfl | ⟨a, sp, xs, rfl, hxs⟩ <;>
+      rcases hasType_slice_inv hU hy with rfl | ⟨b, sp', ys, rfl, hys⟩ <;>
+      simp only [Bool.false_eq_true] at hE
+    · rfl
+    · exact (ih xs (by simp <;> omega)).elems E ys 17 hE' hxs hys hE
+  | array n E =>
+    have hM := eqM?_none_of_not_struct he (T := T) (by rw [hU]; intro fs h; cases h)
+    rw [hU] at hUok
+    have hE' : okComp env E = true := hUok
+    obtain ⟨xs, rfl, -, hxs⟩ := hasType_array_inv hU hx
+    obtain ⟨ys, rfl, -, hys⟩ := hasType_array_inv hU hy
+    rw [structEqM_array hM hU] at hE
+    rw [HashM.top_array hU, HashM.top_array hU]
+    exact (ih xs (by simp <;> omega)).elems E ys 17 hE' hxs hys hE
+  | map K V =>
+    have hM := eqM?_none_of_not_struct he (T := T) (by rw [hU]; intro fs h; cases h)
+    rw [hU] at hUok
+    simp only [okTop, okComp] at hUok
+    have hV : okComp env V = true := hUok
+    rw [structEqM_map hM hU] at hE
+    rw [HashM.top_map hU, HashM.top_map hU]
+    rcases hasType_map_inv hU hx with rfl | ⟨a, xs, rfl, hc, hxs, dx⟩ <;>
+      rcases hasType_map_inv hU hy with rfl | ⟨b, ys, rfl, -, hys, dy⟩ <;>
+      simp only [Bool.false_eq_true] at hE
+    · rfl
+    · simp only [Bool.and_eq_true, beq_iff_eq] at hE
+      obtain ⟨hl, hin⟩ := hE
+      simp only
+      have sx := entriesHaveType_isEntrySpine xs hxs
+      have sy := entriesHaveType_isEntrySpine ys hys
+      have partner : ∀ k v, .pair k v ∈ xs.toList → ∃ k' w, .pair k' w ∈ ys.toList ∧
+          structEq env K k k' = true ∧ structEqM env V v w = true :=
+        fun k v hm => (valueAtM_iff ys sy).1 ((entriesInM_iff xs sx).1 hin k v hm)
+      have sub : KeysSub xs.toList ys.toList := by
+        intro e hm
+        obtain ⟨k, v, rfl⟩ := isEntrySpine_mem xs sx hm
+        obtain ⟨k', w, hm', hk, -⟩ := partner k v hm
+        refine ⟨.pair k' w, hm', ?_⟩
+        simp only [keyEq, ekey]
+        rw [goEq_eq_structEq hf k' hc (entriesHaveType_mem xs hxs hm).1]; exact hk
+      have kin := keysIn_of_keysSub hf hc hxs hys dx hl sub
+      have hag := sortEntries_keysAgree (Cmp.keySet_typed hf hc) kin.1 kin.2 dx dy hl sub
+      apply HashM.entries_congr env K V _ _ 17
+        (isEntries_sortEntries (Cmp.isEntries_of_entriesHaveType hxs))
+        (isEntries_sortEntries (Cmp.isEntries_of_entriesHaveType hys)) hag
+      intro e hm e' hm' hke
+      rw [mem_sortEntries] at hm hm'
+      obtain ⟨k, v, rfl⟩ := isEntrySpine_mem xs sx hm
+      obtain ⟨k', w, rfl⟩ := isEntrySpine_mem ys sy hm'
+      simp only [keyEq, ekey] at hke
+      simp only [ekey, evalue]
+      obtain ⟨hk, hv⟩ := entriesHaveType_mem xs hxs hm
+      obtain ⟨hk', hw⟩ := entriesHaveType_mem ys hys hm'
+      obtain ⟨k2, w2, hm2, hk2, hv2⟩ := partner k v hm
+      have hk2' := (entriesHaveType_mem ys hys hm2).1
+      have g2 : goEq k k2 = true := by rw [goEq_eq_structEq hf k2 hc hk]; exact hk2
+      have g3 : goEq k2 k' = true :=
+        goEq_trans hf hc hk2' hk (by rw [goEq_symm hf hc hk2' hk]; exact g2) hke
+      have hu := entry_unique hf hc hys dy hm2 hm' g3
+      cases hu
+      have sz : sizeOf (Val.pair k v) < sizeOf xs := sizeOf_lt_of_mem_toList xs hm
+      have sz' : sizeOf k < sizeOf (Val.pair k v) ∧ sizeOf v < sizeOf (Val.pair k v) := by
+        constructor <;> simp <;> omega
+      exact ⟨(hashKeyOK hf k).val K k' hc hk hk' hke,
+        (ih v (by simp <;> omega)).comp V w hV hv hw hv2⟩
+  | named i => rw [hU] at hnn; simp [Ty.isNamed] at hnn
+  | _ => rw [hasType_bad (by rw [hU])] at hx; cases hx
+
+theorem HashMOK.step_fields (x : Val) (ih : ∀ z, sizeOf z < sizeOf x → HashMOK env z) :
+    ∀ skip fs ys h, okComp env fs = true → fieldsHaveType env fs x = true →
+    fieldsHaveType env fs ys = true →
+    fieldsEqM env fs x ys = true → HashM.fields env skip fs x h = HashM.fields env skip fs ys h := by
+  intro skip fs ys h ho hx hy hE
+  rcases fieldsHaveType_inv hx with ⟨rfl, rfl⟩ | ⟨F, rest, a, r, rfl, rfl, ha, hr⟩
+  · rcases fieldsHaveType_inv hy with ⟨-, rfl⟩ | ⟨_, _, _, _, h', _⟩
+    · rfl
+    · cases h'
+  · rcases fieldsHaveType_inv hy with ⟨h', -⟩ | ⟨F', rest', b, s, h', rfl, hb, hs⟩
+    · cases h'
+    · cases h'
+      rw [Spec.fieldsEqM] at hE
+      simp only [Bool.and_eq_true] at hE
+      simp only [okComp, Bool.and_eq_true] at ho
+      rw [HashM.fields, HashM.fields]
+      rw [(ih a (by simp <;> omega)).comp F b ho.1 ha hb hE.1]
+      have IH := fun sk h' =>
+        (ih r (by simp <;> omega)).fields sk rest s h' ho.2 hr hs hE.2
+      split
+      · exact IH _ _
+      · cases HashM.field env F b with
+        | panic => rfl
+        | ok c => simp only [Res.bind_ok]; exact IH _ _
+
+theorem HashMOK.step_elems (x : Val) (ih : ∀ z, sizeOf z < sizeOf x → HashMOK env z) :
+    ∀ E ys h, okComp env E = true → allHaveType env E x = true →
+    allHaveType env E ys = true →
+    seqEqM env E x ys = true → HashM.elems env E x h = HashM.elems env E ys h := by
+  intro E ys h ho hx hy hE
+  rcases allHaveType_inv hx with rfl | ⟨a, r, rfl, ha, hr⟩
+  · rcases allHaveType_inv hy with rfl | ⟨_, _, rfl, _⟩
+    · rfl
+    · rw [Spec.seqEqM.eq_def] at hE; simp at hE
+  · rcases allHaveType_inv hy with rfl | ⟨b, s, rfl, hb, hs⟩
+    · rw [Spec.seqEqM.eq_def] at hE; simp at hE
+    · rw [Spec.seqEqM] at hE
+      simp only [Bool.and_eq_true] at hE
+      rw [HashM.elems, HashM.elems]
+      rw [(ih a (by simp <;> omega)).comp E b ho ha hb hE.1]
+      cases HashM.field env E b with
+      | panic => rfl
+      | ok c =>
+        simp only [Res.bind_ok]
+        exact (ih r (by simp <;> omega)).elems E s _ ho hr hs hE.2
+
+include he hp in
+/-- (A) the expression emitted for a component -/
+theorem HashMOK.step_comp (x : Val)
+    (hN : ∀ T y, okTop env T = true → (∀ R, env.under T ≠ .ptr R) → hasType env T x = true →
+      hasType env T y = true →
+      structEqM env T x y = true → HashM.top env T x = HashM.top env T y)
+    (ih : ∀ z, sizeOf z < sizeOf x → HashMOK env z) :
+    ∀ F y, okComp env F = true → hasType env F x = true → hasType env F y = true →
+    structEqM env F x y = true →
+    HashM.field env F x = HashM.field env F y := by
+  intro F y hF hx hy hE
+  by_cases hP : ∃ R, env.under F = .ptr R
+  · obtain ⟨R, hU⟩ := hP
+    have hM := eqM?_none_of_not_struct he (T := F) (by rw [hU]; intro fs h; cases h)
+    have hUok := okDecl_under he (okDecl_of_okComp hF)
+    rw [hU] at hUok
+    simp only [okDecl, okComp, Bool.and_eq_true] at hUok
+    obtain ⟨⟨hRns, -⟩, hR⟩ := hUok
+    rw [structEqM_ptr hM hU] at hE
+    cases hH : env.hashM? R with
+    | some u =>
+      rw [HashM.field_ptr_method hU hH, HashM.field_ptr_method hU hH]
+      rcases hasType_ptr_inv hU hx with rfl | ⟨a, v, rfl, hv⟩ <;>
+        rcases hasType_ptr_inv hU hy with rfl | ⟨b, w, rfl, hw⟩ <;>
+        simp only [Bool.false_eq_true] at hE
+      · rfl
+      · cases hMR : env.eqM? R with
+        | none => rw [(Env.methodsPaired_none hp R).2 hMR] at hH; cases hH
+        | some u' =>
+          simp only [userHashPtr]
+          exact userHashVal_eq_of_method he hMR hv hw hE
+    | none =>
+      have hMR := (Env.methodsPaired_none hp R).1 hH
+      rw [HashM.field_ptr_plain hU hH, HashM.field_ptr_plain hU hH]
+      by_cases hS : ∃ fs, env.under R = .struct fs
+      · obtain ⟨fs, hS⟩ := hS
+        have hn : R.isNamed = true := by
+          cases R <;> simp_all [Env.under, Ty.isNamed]
+        have hfs : okComp env fs = true := by
+          have := okTop_under he (okTop_of_okComp hR)
+          rw [hS] at this; exact this
+        rw [HashM.top_ptr_struct hU hS hn, HashM.top_ptr_struct hU hS hn]
+        rcases hasType_ptr_inv hU hx with rfl | ⟨a, v, rfl, hv⟩ <;>
+          rcases hasType_ptr_inv hU hy with rfl | ⟨b, w, rfl, hw⟩ <;>
+          simp only [Bool.false_eq_true] at hE
+        · rfl
+        · obtain ⟨xs, rfl, hxs⟩ := hasType_struct_inv hS hv
+          obtain ⟨ys, rfl, hys⟩ := hasType_struct_inv hS hw
+          rw [structEqM_struct hMR hS] at hE
+          simp only
+          rw [(ih xs (by simp <;> omega)).fields _ fs ys 17 hfs hxs hys hE]
+      · have hS' : ∀ fs, env.under R ≠ .struct fs := fun fs h => hS ⟨fs, h⟩
+        rw [HashM.top_ptr_other hU hS', HashM.top_ptr_other hU hS']
+        rcases hasType_ptr_inv hU hx with rfl | ⟨a, v, rfl, hv⟩ <;>
+          rcases hasType_ptr_inv hU hy with rfl | ⟨b, w, rfl, hw⟩ <;>
+          simp only [Bool.false_eq_true] at hE
+        · rfl
+        · simp only
+          rw [(ih v (by simp <;> omega)).comp R w hR hv hw hE]
+  · have hnp : ∀ R, env.under F ≠ .ptr R := fun R h => hP ⟨R, h⟩
+    rw [HashM.field_not_ptr hnp, HashM.field_not_ptr hnp]
+    exact hN F y (okTop_of_okComp hF) hnp hx hy hE
+
+include he in
+/-- (B) the function generated for a type -/
+theorem HashMOK.step_top (x : Val)
+    (hN : ∀ T y, okTop env T = true → (∀ R, env.under T ≠ .ptr R) → hasType env T x = true →
+      hasType env T y = true →
+      structEqM env T x y = true → HashM.top env T x = HashM.top env T y)
+    (ih : ∀ z, sizeOf z < sizeOf x → HashMOK env z) :
+    ∀ T y, okTop env T = true → hasType env T x = true → hasType env T y = true →
+    structEqTopM env T x y = true →
+    HashM.top env T x = HashM.top env T y := by
+  intro T y hT hx hy hE
+  by_cases hP : ∃ R, env.under T = .ptr R
+  · obtain ⟨R, hU⟩ := hP
+    have hM := eqM?_none_of_not_struct he (T := T) (by rw [hU]; intro fs h; cases h)
+    have hUok := okTop_under he hT
+    rw [hU] at hUok
+    simp only [okTop, Bool.and_eq_true] at hUok
+    obtain ⟨hRns, hR⟩ := hUok
+    rw [structEqTopM_ptr hM hU] at hE
+    by_cases hS : ∃ fs, env.under R = .struct fs
+    · obtain ⟨fs, hS⟩ := hS
+      have hn : R.isNamed = true := by
+        cases R <;> simp_all [Env.under, Ty.isNamed]
+      have hfs : okComp env fs = true := by
+        have := okTop_under he hR
+        rw [hS] at this; exact this
+      rw [HashM.top_ptr_struct hU hS hn, HashM.top_ptr_struct hU hS hn]
+      rcases hasType_ptr_inv hU hx with rfl | ⟨a, v, rfl, hv⟩ <;>
+        rcases hasType_ptr_inv hU hy with rfl | ⟨b, w, rfl, hw⟩ <;>
+        simp only [Bool.false_eq_true] at hE
+      · rfl
+      · obtain ⟨xs, rfl, hxs⟩ := hasType_struct_inv hS hv
+        obtain ⟨ys, rfl, hys⟩ := hasType_struct_inv hS hw
+        simp only [hS, structFields?, hn, if_true] at hE
+        simp only
+        rw [(ih xs (by simp <;> omega)).fields _ fs ys 17 hfs hxs hys hE]
+    · have hS' : ∀ fs, env.under R ≠ .struct fs := fun fs h => hS ⟨fs, h⟩
+      have hnone : structFields? (env.under R) = none := by
+        cases hG : env.under R with
+        | struct fs => exact absurd ⟨fs, hG⟩ hS
+        | _ => rfl
+      rw [HashM.top_ptr_other hU hS', HashM.top_ptr_other hU hS']
+      rcases hasType_ptr_inv hU hx with rfl | ⟨a, v, rfl, hv⟩ <;>
+        rcases hasType_ptr_inv hU hy with rfl | ⟨b, w, rfl, hw⟩ <;>
+        simp only [Bool.false_eq_true] at hE
+      · rfl
+      · simp only [hnone] at hE
+        simp only
+        rw [(ih v (by simp <;> omega)).topcomp R w hR hv hw hE]
+  · have hnp : ∀ R, env.under T ≠ .ptr R := fun R h => hP ⟨R, h⟩
+    rw [structEqTopM_not_ptr hnp] at hE
+    exact hN T y hT hnp hx hy hE
+
+include he hp in
+/-- (E) the expression emitted for the pointee of a top-level pointer -/
+theorem HashMOK.step_topcomp (x : Val)
+    (hN : ∀ T y, okTop env T = true → (∀ R, env.under T ≠ .ptr R) → hasType env T x = true →
+      hasType env T y = true →
+      structEqM env T x y = true → HashM.top env T x = HashM.top env T y)
+    (hB : ∀ T y, okTop env T = true → hasType env T x = true → hasType env T y = true →
+      structEqTopM env T x y = true →
+      HashM.top env T x = HashM.top env T y) :
+    ∀ F y, okTop env F = true → hasType env F x = true → hasType env F y = true →
+    structEqTopM env F x y = true →
+    HashM.field env F x = HashM.field env F y := by
+  intro F y hF hx hy hE
+  by_cases hP : ∃ R, env.under F = .ptr R
+  · obtain ⟨R, hU⟩ := hP
+    have hM := eqM?_none_of_not_struct he (T := F) (by rw [hU]; intro fs h; cases h)
+    cases hH : env.hashM? R with
+    | none =>
+      rw [HashM.field_ptr_plain hU hH, HashM.field_ptr_plain hU hH]
+      exact hB F y hF hx hy hE
+    | some u =>
+      rw [HashM.field_ptr_method hU hH, HashM.field_ptr_method hU hH]
+      rw [structEqTopM_ptr hM hU] at hE
+      rcases hasType_ptr_inv hU hx with rfl | ⟨a, v, rfl, hv⟩ <;>
+        rcases hasType_ptr_inv hU hy with rfl | ⟨b, w, rfl, hw⟩ <;>
+        simp only [Bool.false_eq_true] at hE
+      · rfl
+      · cases hMR : env.eqM? R with
+        | none => rw [(Env.methodsPaired_none hp R).2 hMR] at hH; cases hH
+        | some u' =>
+          obtain ⟨F0, rest, hS⟩ := eqM?_some_inv he hMR
+          have hn : R.isNamed = true := by
+            cases R <;> first | rfl | cases hMR
+          obtain ⟨xs, rfl, hxs⟩ := hasType_struct_inv hS hv
+          obtain ⟨ys, rfl, hys⟩ := hasType_struct_inv hS hw
+          simp only [hS, structFields?, hn, if_true] at hE
+          rcases fieldsHaveType_inv hxs with ⟨h, -⟩ | ⟨_, _, a0, r, h, rfl, ha0, -⟩
+          · cases h
+          cases h
+          rcases fieldsHaveType_inv hys with ⟨h, -⟩ | ⟨_, _, b0, s, h, rfl, hb0, -⟩
+          · cases h
+          cases h
+          rw [Spec.fieldsEqM] at hE
+          simp only [Bool.and_eq_true] at hE
+          simp only [userHashPtr, userHashVal_struct_scons]
+          exact hashFirst_eq_of_structEqM ha0 hb0 hE.1
+  · have hnp : ∀ R, env.under F ≠ .ptr R := fun R h => hP ⟨R, h⟩
+    rw [structEqTopM_not_ptr hnp] at hE
+    rw [HashM.field_not_ptr hnp, HashM.field_not_ptr hnp]
+    exact hN F y hF hnp hx hy hE
+
+end HashSteps
+
+open EqualM in
+theorem hashMOK {env : Env} (hf : env.flagsOk = true)
+    (he : envOk env = true) (hp : env.methodsPaired = true) (x : Val) : HashMOK env x := by
+  induction x using Val.strongInduction with
+  | step x ih =>
+  have hN := HashMOK.step_nonptr hf he hp x ih
+  have hB := HashMOK.step_top he x hN ih
+  exact ⟨HashMOK.step_comp he hp x hN ih, hB, HashMOK.step_topcomp he hp x hN hB,
+    HashMOK.step_fields x ih, HashMOK.step_elems x ih⟩
+
 
 end Goderive
